@@ -73,7 +73,7 @@ func projChain(c message.IKEPayloadContainer) []any {
 func projTransforms(c int, ts message.TransformContainer, out []any) []any {
 	for _, t := range ts {
 		if t == nil {
-			out = append(out, J{"c": c, "nil": true})
+			out = append(out, J{"c": c, "tt": 0, "tid": 0, "attr": "nil", "at": 0, "av": 0, "avl": Oct{}})
 			continue
 		}
 		j := J{"c": c, "tt": int(t.TransformType), "tid": int(t.TransformID), "attr": "none", "at": 0, "av": 0, "avl": Oct{}}
